@@ -52,8 +52,8 @@ macro_rules! ev_text {
 ev_text!(c01_text_unknown_first, L5, L5.len());
 
 //@ harness: c01_text_unknown_zero_numbers
-//@ tier: quick
-//@ timeout: 900
+//@ tier: thorough
+//@ timeout: 3000
 //@ mem: 12
 //@ unwindset: read_sig=66; read_id=34; read_pubkey=34; read_hex=66; memcmp.0=34; memchr=34; read_u64=24; read_kind=10; burn_string=30; eat_whitespace=6; eat_whitespace_and_commas=6; burn_number=12; burn_array=6; json_unescape=64; check_event=4; parse_json_event=20
 //@ encodes: Event::from_json, parse_json_event, burn_key_and_value_after_quote, burn_value, burn_number, burn_array
